@@ -205,7 +205,7 @@ class SerialPool:
 
 
 class _Task:
-    __slots__ = ("idx", "item", "go", "state", "result", "exc", "thread", "label", "npoints", "blocked_on")
+    __slots__ = ("idx", "item", "go", "state", "result", "exc", "thread", "label", "npoints", "blocked_on", "done_seq")
 
     def __init__(self, idx, item):
         self.idx, self.item = idx, item
@@ -215,6 +215,7 @@ class _Task:
         self.label = "start"
         self.npoints = 0
         self.blocked_on = None
+        self.done_seq = None
 
 
 class Scheduler:
@@ -227,8 +228,10 @@ class Scheduler:
         self.tasks = []
         self.by_ident = {}
         self.pools = 0
+        self.ndone = 0
         self.mutating_only = mutating_only
-        self.reads = {"stat", "lstat", "scandir", "listdir"}
+        # True: no read-only call is a scheduling point; "listing": directory listings are, stat calls are not; False: all are
+        self.reads = {"stat", "lstat"} if mutating_only == "listing" else {"stat", "lstat", "scandir", "listdir"}
 
     # ---- called inside worker threads
     def _profile(self, frame, event, arg):
@@ -263,6 +266,8 @@ class Scheduler:
             t.exc = e
         finally:
             sys.setprofile(None)
+            self.ndone += 1
+            t.done_seq = self.ndone
             t.state = "done"
             self.back.release()
 
@@ -332,8 +337,10 @@ def make_pool_class(sched):
         def __exit__(self, *a):
             return False
 
-        def _run(self, fn, it):
+        def _run(self, fn, it, completion_order=False):
             tasks = sched.run_pool(fn, list(it), self.limit)
+            if completion_order:  # imap_unordered hands results out as the tasks finish
+                tasks = sorted(tasks, key=lambda t: t.done_seq)
             for t in tasks:
                 if t.exc is not None:
                     raise t.exc  # like pool.imap: the first failing task (in input order) re-raises in the caller
@@ -346,7 +353,7 @@ def make_pool_class(sched):
             return list(self._run(fn, it))
 
         def imap_unordered(self, fn, it, chunksize=None):
-            return self._run(fn, it)
+            return self._run(fn, it, completion_order=True)
 
         def starmap(self, fn, it, chunksize=None):
             return list(self._run(lambda a: fn(*a), it))
